@@ -114,9 +114,11 @@ CLAIMED = {
             'problem restricted to the selected conditions with their bootstrap multiplicity, for all real basis and training RDMs; normalised '
             'fits proved proportional with unit norm (cosine); fit_select proved to return an index whose average similarity is >= every '
             'other candidate under the path condition; predict vs predict_rdm agreement, linearity in theta, descriptor carry-over and '
-            'dictionary round trip for all four model classes as identities.',
-            'fit_optimize / fit_optimize_positive / fit_interpolate (SciPy optimisers) are not encodable -> default fitters of ModelWeighted and '
-            'ModelInterpolate are outside; fit_regress_nn (active-set loop) did not terminate within the budget symbolically and is outside; '
+            'dictionary round trip for all four model classes as identities; fit_interpolate with the scalar optimiser replaced by its contract '
+            'stub (any point of [0,1]): the objective handed to the optimiser for pair i is proved to be minus the mean similarity of the pair '
+            'mixture alone and theta the mixture of the pair with the lowest reported loss.',
+            'fit_optimize / fit_optimize_positive (SciPy optimisers) are not encodable and the Brent search inside fit_interpolate is stubbed -> '
+            'optimality within a pair and the default fitter of ModelWeighted are outside; fit_regress_nn (active-set loop) did not terminate within the budget symbolically and is outside; '
             'normal equations => optimality is the usual projection argument (Cauchy-Schwarz lemma solver-checked in C03/C07); 2-3 basis RDMs, 3-4|5 conditions'),
     'C04': ('DESIGN.md 4/C04',
             'Real eval_bootstrap_rdm / _pattern / eval_bootstrap run with N=2|3 resamples whose np.random draws are choice points: every '
